@@ -1,0 +1,19 @@
+//go:build verif
+
+package tree
+
+import "github.com/benoitkugler/webrender/utils"
+
+// Read-only accessors used by the verification harness of property C03 (the cascade).
+// Compiled only with the build tag `verif`.
+
+// VerifC03DeclarationPrecedence exposes declarationPrecedence (origin x importance -> rank).
+func VerifC03DeclarationPrecedence(origin string, importance bool) uint8 {
+	return declarationPrecedence(origin, importance)
+}
+
+// VerifC03NewCSS builds a style sheet like NewCSSDefault but with an URL fetcher (for @import)
+// and a device media type; it is what findStylesheets does for <style> elements.
+func VerifC03NewCSS(input utils.ContentInput, baseUrl string, urlFetcher utils.UrlFetcher, mediaType string) (CSS, error) {
+	return newCSS(input, baseUrl, urlFetcher, false, mediaType, nil, nil, nil, nil)
+}
